@@ -1,5 +1,1594 @@
-use crate::Ctx;
+//! C09 - applying a snapshot delta reproduces the target snapshot.
+//!
+//! Oracles: (1) round trip `A.read_with_delta(create(A, B)) == B` directly and through both wire
+//! forms, (2) an independent reader of the delta/snapshot wire forms written from doc/snapshot.md
+//! (deleted keys = keys(A) \ keys(B), differences wrap, `_size` present iff not pre-agreed),
+//! (3) metamorphic `create(A, A)`, (4) differential with the bundled DDNet reference.
+//!
+//! The `pub` items are shared with C10 (snapshot serialization round trip).
 
-pub fn run(_ctx: &Ctx) {
-    // not built yet
+use crate::util::Warnings;
+use crate::{burn, ensure, ensure_eq, Ctx, Outcome, PResult};
+use libtw2_packer::{with_packer, IntUnpacker, Unpacker};
+use libtw2_snapshot::format::TypeId;
+use libtw2_snapshot::snap::{self, Builder, Delta, RawBuilder, RawSnap};
+use libtw2_snapshot::Snap;
+use libtw2_snapshot_reference::snap as refsnap;
+use proptest::prelude::*;
+use serde::{Deserialize, Serialize};
+use serde_json::{json, Value};
+use std::cell::RefCell;
+use std::collections::{BTreeMap, BTreeSet};
+use std::sync::atomic::{AtomicU64, Ordering};
+use uuid::Uuid;
+
+/// Key under which the UUID-registry defect (C10) is listed when it is open.
+pub const KEY_UUID_REGISTRY: &str = "uuid-registry-after-read";
+
+// ---------------------------------------------------------------------------
+// Models written from doc/snapshot.md
+
+pub const MAX_ITEMS: usize = 1024;
+/// 64 KiB in 32-bit words.
+pub const MAX_INTS: usize = 16 * 1024;
+
+/// (type, id) -> data, ordered by the unsigned item key.
+pub type RawModel = BTreeMap<(u16, u16), Vec<i32>>;
+pub type TypedModel = BTreeMap<(TypeId, u16), Vec<i32>>;
+/// type -> pre-agreed item size in words.
+pub type SizeTable = BTreeMap<u16, u32>;
+
+pub fn ukey(t: u16, id: u16) -> i32 {
+    (((t as u32) << 16) | id as u32) as i32
+}
+
+pub fn split_key(k: i32) -> (u16, u16) {
+    ((k as u32 >> 16) as u16, k as u32 as u16)
+}
+
+/// Does one more item with `len` data words fit next to `n_items` items with `n_words` data words?
+pub fn fits(n_items: usize, n_words: usize, len: usize) -> bool {
+    n_items + 1 <= MAX_ITEMS && 2 + 2 * (n_items + 1) + n_words + len <= MAX_INTS
+}
+
+pub fn model_words(m: &RawModel) -> usize {
+    m.values().map(|d| d.len()).sum()
+}
+
+pub fn model_crc(m: &RawModel) -> i32 {
+    m.values().flatten().fold(0i32, |s, &w| s.wrapping_add(w))
+}
+
+pub fn uuid_words(u: &[u8; 16]) -> [i32; 4] {
+    let mut r = [0i32; 4];
+    for i in 0..4 {
+        r[i] = i32::from_be_bytes([u[4 * i], u[4 * i + 1], u[4 * i + 2], u[4 * i + 3]]);
+    }
+    r
+}
+
+pub fn words_uuid(w: &[i32]) -> [u8; 16] {
+    let mut r = [0u8; 16];
+    for i in 0..4 {
+        r[4 * i..4 * i + 4].copy_from_slice(&w[i].to_be_bytes());
+    }
+    r
+}
+
+/// Reader for the integer wire form of a snapshot, written from doc/snapshot.md. Items in wire order.
+pub fn parse_snap_ints(ints: &[i32]) -> Result<Vec<((u16, u16), Vec<i32>)>, String> {
+    ensure!(ints.len() >= 2, "serialized snapshot has {} words, header needs 2", ints.len());
+    let (data_size, num) = (ints[0], ints[1]);
+    ensure!(data_size >= 0 && data_size % 4 == 0, "data_size {} is not a non-negative multiple of 4", data_size);
+    ensure!(num >= 0, "num_items {} negative", num);
+    let n = num as usize;
+    let d = data_size as usize / 4;
+    ensure_eq!(ints.len(), 2 + n + d, "serialized snapshot length vs header (num_items {}, data_size {})", num, data_size);
+    let offs = &ints[2..2 + n];
+    let items = &ints[2 + n..];
+    if n == 0 {
+        ensure!(d == 0, "no items but data_size {}", data_size);
+    }
+    let mut out = Vec::with_capacity(n);
+    for i in 0..n {
+        let off = offs[i];
+        ensure!(off >= 0 && off % 4 == 0, "offset #{} = {} invalid", i, off);
+        let start = off as usize / 4;
+        if i == 0 {
+            ensure!(start == 0, "first offset is {} instead of 0", off);
+        }
+        let end = if i + 1 < n {
+            let o = offs[i + 1];
+            ensure!(o >= 0 && o % 4 == 0, "offset #{} = {} invalid", i + 1, o);
+            o as usize / 4
+        } else {
+            d
+        };
+        ensure!(start < end && end <= d, "item #{} spans words {}..{} of {}", i, start, end, d);
+        out.push((split_key(items[start]), items[start + 1..end].to_vec()));
+    }
+    Ok(out)
+}
+
+pub fn to_raw_model(items: Vec<((u16, u16), Vec<i32>)>) -> Result<RawModel, String> {
+    let mut m = RawModel::new();
+    for (k, d) in items {
+        ensure!(m.insert(k, d).is_none(), "serialized snapshot contains key {:?} twice", k);
+    }
+    Ok(m)
+}
+
+/// First difference between two raw models, rendered shortly.
+pub fn first_diff<K: Ord + std::fmt::Debug + Clone>(got: &BTreeMap<K, Vec<i32>>, want: &BTreeMap<K, Vec<i32>>) -> Option<String> {
+    for (k, d) in want {
+        match got.get(k) {
+            None => return Some(format!("item {:?} missing (expected data {:?})", k, clip(d))),
+            Some(g) if g != d => return Some(format!("item {:?} has data {:?}, expected {:?}", k, clip(g), clip(d))),
+            _ => {}
+        }
+    }
+    for (k, d) in got {
+        if !want.contains_key(k) {
+            return Some(format!("unexpected item {:?} with data {:?}", k, clip(d)));
+        }
+    }
+    None
+}
+
+pub fn clip(d: &[i32]) -> String {
+    if d.len() <= 12 {
+        format!("{:?}", d)
+    } else {
+        format!("{:?}.. ({} words)", &d[..12], d.len())
+    }
+}
+
+pub fn eq_ints(got: &[i32], want: &[i32], what: &str) -> Result<(), String> {
+    if got == want {
+        return Ok(());
+    }
+    let i = got.iter().zip(want).position(|(a, b)| a != b).unwrap_or(got.len().min(want.len()));
+    Err(format!(
+        "{}: {} vs {} words, first difference at word {}: {:?} vs {:?}",
+        what,
+        got.len(),
+        want.len(),
+        i,
+        got.get(i),
+        want.get(i)
+    ))
+}
+
+pub struct ParsedDelta {
+    pub deleted: Vec<i32>,
+    pub updates: Vec<((u16, u16), Vec<i32>)>,
+}
+
+/// Reader for the integer wire form of a delta, written from doc/snapshot.md.
+pub fn parse_delta_ints(ints: &[i32], table: &SizeTable) -> Result<ParsedDelta, String> {
+    ensure!(ints.len() >= 3, "delta has {} words, header needs 3", ints.len());
+    let (nd, nu) = (ints[0], ints[1]);
+    ensure!(nd >= 0 && nu >= 0, "negative counts in delta header: {} {}", nd, nu);
+    ensure!(ints[2] == 0, "_zero field of the delta header is {}", ints[2]);
+    let mut pos = 3usize;
+    ensure!(pos + nd as usize <= ints.len(), "removed keys run past the end");
+    let deleted = ints[pos..pos + nd as usize].to_vec();
+    pos += nd as usize;
+    let mut updates = Vec::new();
+    for i in 0..nu {
+        ensure!(pos + 2 <= ints.len(), "item delta #{} header runs past the end", i);
+        let (t, id) = (ints[pos], ints[pos + 1]);
+        pos += 2;
+        ensure!((0..=0xffff).contains(&t) && (0..=0xffff).contains(&id), "item delta #{}: type {} id {} out of range", i, t, id);
+        let size = match table.get(&(t as u16)) {
+            Some(&s) => s as usize,
+            None => {
+                ensure!(pos < ints.len(), "item delta #{} size runs past the end", i);
+                let s = ints[pos];
+                pos += 1;
+                ensure!(s >= 0, "item delta #{} ({},{}): negative size {}", i, t, id, s);
+                s as usize
+            }
+        };
+        ensure!(pos + size <= ints.len(), "item delta #{} ({},{}) of size {} runs past the end (position {} of {})", i, t, id, size, pos, ints.len());
+        updates.push(((t as u16, id as u16), ints[pos..pos + size].to_vec()));
+        pos += size;
+    }
+    ensure_eq!(pos, ints.len(), "delta wire form has words left after {} item deltas", nu);
+    Ok(ParsedDelta { deleted, updates })
+}
+
+/// What doc/snapshot.md and the property demand of a delta from `a` to `b`.
+pub fn check_parsed_delta(p: &ParsedDelta, a: &RawModel, b: &RawModel) -> Result<(), String> {
+    let want_deleted: BTreeSet<i32> = a.keys().filter(|k| !b.contains_key(k)).map(|&(t, i)| ukey(t, i)).collect();
+    let got_deleted: BTreeSet<i32> = p.deleted.iter().copied().collect();
+    ensure_eq!(got_deleted.len(), p.deleted.len(), "removed keys listed more than once");
+    if got_deleted != want_deleted {
+        let extra: Vec<_> = got_deleted.difference(&want_deleted).map(|&k| split_key(k)).take(4).collect();
+        let missing: Vec<_> = want_deleted.difference(&got_deleted).map(|&k| split_key(k)).take(4).collect();
+        return Err(format!(
+            "removed keys are not exactly keys(A) \\ keys(B): wrongly listed {:?}, not listed {:?}",
+            extra, missing
+        ));
+    }
+    let mut seen = BTreeSet::new();
+    for (k, diff) in &p.updates {
+        ensure!(seen.insert(*k), "item delta for {:?} written twice", k);
+        let Some(to) = b.get(k) else {
+            return Err(format!("item delta for {:?} which is not in B", k));
+        };
+        let want: Vec<i32> = match a.get(k) {
+            Some(from) => {
+                ensure_eq!(from.len(), to.len(), "generator: sizes of {:?} differ", k);
+                to.iter().zip(from).map(|(t, f)| t.wrapping_sub(*f)).collect()
+            }
+            None => to.clone(),
+        };
+        if *diff != want {
+            return Err(format!(
+                "item delta for {:?} is {} but B - A (wrapping; raw data if new) is {} [A: {} B: {}]",
+                k,
+                clip(diff),
+                clip(&want),
+                a.get(k).map(|d| clip(d)).unwrap_or_else(|| "absent".into()),
+                clip(to)
+            ));
+        }
+    }
+    for (k, to) in b {
+        if a.get(k) != Some(to) {
+            ensure!(seen.contains(k), "added/changed item {:?} has no item delta", k);
+        }
+    }
+    Ok(())
+}
+
+// ---------------------------------------------------------------------------
+// Scratch buffers (per thread; contents never read beyond what the callee reports as written)
+
+const SCRATCH_INTS: usize = 3 + MAX_ITEMS + 3 * MAX_ITEMS + MAX_INTS + 64;
+
+thread_local! {
+    static INTS: RefCell<Vec<i32>> = RefCell::new(Vec::new());
+    static BYTES: RefCell<Vec<u8>> = RefCell::new(Vec::new());
+}
+
+pub fn with_ints<R>(f: impl FnOnce(&mut [i32]) -> R) -> R {
+    let mut v = INTS.with(|c| std::mem::take(&mut *c.borrow_mut()));
+    if v.len() < SCRATCH_INTS {
+        v.resize(SCRATCH_INTS, 0);
+    }
+    let r = f(&mut v);
+    INTS.with(|c| *c.borrow_mut() = v);
+    r
+}
+
+pub fn with_bytes<R>(f: impl FnOnce(&mut Vec<u8>) -> R) -> R {
+    let mut v = BYTES.with(|c| std::mem::take(&mut *c.borrow_mut()));
+    v.clear();
+    v.reserve(SCRATCH_INTS * 5);
+    let r = f(&mut v);
+    BYTES.with(|c| *c.borrow_mut() = v);
+    r
+}
+
+pub fn decode_bytes_to_ints(bytes: &[u8]) -> Result<Vec<i32>, String> {
+    let mut u = Unpacker::new(bytes);
+    let mut w = Warnings::new();
+    let mut out = Vec::new();
+    while !u.is_empty() {
+        burn();
+        out.push(u.read_int(&mut w).map_err(|_| "byte wire form ends inside an integer".to_string())?);
+    }
+    ensure!(w.is_empty(), "byte wire form contains non-canonical integers: {:?}", w.0);
+    Ok(out)
+}
+
+// ---------------------------------------------------------------------------
+// One interface over RawSnap and Snap
+
+pub trait SnapLike: Default + Clone {
+    fn apply_delta(&mut self, w: &mut Warnings, from: &Self, d: &Delta) -> Result<(), snap::Error>;
+    fn create_delta(d: &mut Delta, from: &Self, to: &Self);
+    fn to_ints(&self) -> Result<Vec<i32>, String>;
+    fn to_bytes(&self) -> Result<Vec<u8>, String>;
+    fn checksum(&self) -> i32;
+}
+
+impl SnapLike for RawSnap {
+    fn apply_delta(&mut self, w: &mut Warnings, from: &Self, d: &Delta) -> Result<(), snap::Error> {
+        self.read_with_delta(w, from, d)
+    }
+    fn create_delta(d: &mut Delta, from: &Self, to: &Self) {
+        d.create_raw(from, to)
+    }
+    fn to_ints(&self) -> Result<Vec<i32>, String> {
+        let mut buf = Vec::new();
+        with_ints(|out| self.write_to_ints(&mut buf, out).map(|s| s.to_vec()))
+            .map_err(|_| format!("write_to_ints reported a capacity error on a {}-word buffer", SCRATCH_INTS))
+    }
+    fn to_bytes(&self) -> Result<Vec<u8>, String> {
+        let mut buf = Vec::new();
+        with_bytes(|out| with_packer(&mut *out, |p| self.write(&mut buf, p).map(|s| s.to_vec())))
+            .map_err(|_| "write reported a capacity error on an ample buffer".to_string())
+    }
+    fn checksum(&self) -> i32 {
+        self.crc()
+    }
+}
+
+impl SnapLike for Snap {
+    fn apply_delta(&mut self, w: &mut Warnings, from: &Self, d: &Delta) -> Result<(), snap::Error> {
+        self.read_with_delta(w, from, d)
+    }
+    fn create_delta(d: &mut Delta, from: &Self, to: &Self) {
+        d.create(from, to)
+    }
+    fn to_ints(&self) -> Result<Vec<i32>, String> {
+        let mut buf = Vec::new();
+        with_ints(|out| self.write_to_ints(&mut buf, out).map(|s| s.to_vec()))
+            .map_err(|_| format!("write_to_ints reported a capacity error on a {}-word buffer", SCRATCH_INTS))
+    }
+    fn to_bytes(&self) -> Result<Vec<u8>, String> {
+        let mut buf = Vec::new();
+        with_bytes(|out| with_packer(&mut *out, |p| self.write(&mut buf, p).map(|s| s.to_vec())))
+            .map_err(|_| "write reported a capacity error on an ample buffer".to_string())
+    }
+    fn checksum(&self) -> i32 {
+        self.crc()
+    }
+}
+
+pub fn delta_to_ints(d: &Delta, table: &SizeTable) -> Result<Vec<i32>, String> {
+    with_ints(|out| d.write_to_ints(|t| table.get(&t).copied(), out).map(|s| s.to_vec()))
+        .map_err(|_| format!("Delta::write_to_ints reported a capacity error on a {}-word buffer", SCRATCH_INTS))
+}
+
+pub fn delta_to_bytes(d: &Delta, table: &SizeTable) -> Result<Vec<u8>, String> {
+    with_bytes(|out| with_packer(&mut *out, |p| d.write(|t| table.get(&t).copied(), p).map(|s| s.to_vec())))
+        .map_err(|_| "Delta::write reported a capacity error on an ample buffer".to_string())
+}
+
+/// The snapshot's integer wire form parsed by the doc reader.
+pub fn raw_view<S: SnapLike>(s: &S) -> Result<RawModel, String> {
+    to_raw_model(parse_snap_ints(&s.to_ints()?)?)
+}
+
+// ---------------------------------------------------------------------------
+// Reference implementation (bundled DDNet C++). Its `dbg_assert` shim aborts the process, so every
+// call below stays inside the domain stated in DESIGN.md: type <= 0x7fff, accepted item sets only,
+// static sizes only for types < 64 and never 0, output bounded by 16384 words, hash buckets <= 64.
+
+const REF_STATIC_TYPES: u16 = 64;
+
+thread_local! {
+    static REF_TABLE: RefCell<[u32; REF_STATIC_TYPES as usize]> = RefCell::new([0; REF_STATIC_TYPES as usize]);
+    static REF_DELTA_NONE: RefCell<Option<refsnap::Delta>> = RefCell::new(None);
+    static REF_BUILDERS: RefCell<Vec<refsnap::RawBuilder>> = RefCell::new(Vec::new());
+}
+
+fn ref_size_none(_: u16) -> Option<u32> {
+    None
+}
+
+fn ref_size_tls(t: u16) -> Option<u32> {
+    if t >= REF_STATIC_TYPES {
+        return None;
+    }
+    REF_TABLE.with(|c| match c.borrow()[t as usize] {
+        0 => None,
+        s => Some(s),
+    })
+}
+
+/// The part of `table` the reference can represent.
+pub fn ref_reduced_table(table: &SizeTable) -> SizeTable {
+    table
+        .iter()
+        .filter(|(&t, &s)| t < REF_STATIC_TYPES && s >= 1 && s <= 0x7fff / 4)
+        .map(|(&t, &s)| (t, s))
+        .collect()
+}
+
+pub fn ref_domain(m: &RawModel) -> bool {
+    m.keys().all(|&(t, _)| t <= 0x7fff)
+}
+
+fn ref_bucket(key: i32) -> usize {
+    let mut h: u32 = 5381;
+    for shift in 0..4 {
+        h = (h << 5).wrapping_add(h).wrapping_add(((key >> (shift * 8)) & 0xff) as u32);
+    }
+    (h % 256) as usize
+}
+
+fn ref_buckets_ok(m: &RawModel) -> bool {
+    let mut n = [0u16; 256];
+    for &(t, i) in m.keys() {
+        let b = ref_bucket(ukey(t, i));
+        n[b] += 1;
+        if n[b] > 64 {
+            return false;
+        }
+    }
+    true
+}
+
+fn ref_build(m: &RawModel) -> refsnap::RawSnap {
+    let mut b = REF_BUILDERS.with(|p| p.borrow_mut().pop()).unwrap_or_else(refsnap::RawBuilder::new);
+    for (&(t, id), d) in m {
+        let _ = b.add_item(t, id, d);
+    }
+    b.finish()
+}
+
+fn ref_release(s: refsnap::RawSnap) {
+    let b = s.recycle();
+    REF_BUILDERS.with(|p| {
+        let mut p = p.borrow_mut();
+        if p.len() < 4 {
+            p.push(b);
+        }
+    });
+}
+
+/// Serialization of the item set by the reference builder (items inserted in ascending key order).
+pub fn ref_snap_ints(m: &RawModel) -> Result<Vec<i32>, String> {
+    debug_assert!(ref_domain(m));
+    let mut s = ref_build(m);
+    let r = with_ints(|out| s.write_to_ints(&mut Vec::new(), out).map(|x| x.to_vec()));
+    ref_release(s);
+    r.map_err(|_| "reference builder failed to serialize an item set within the limits".to_string())
+}
+
+/// The reference's delta for (a, b); None if the pair is outside what the C++ can do safely.
+pub fn ref_delta_ints(a: &RawModel, b: &RawModel, reduced: &SizeTable) -> Option<Vec<i32>> {
+    if !ref_domain(a) || !ref_domain(b) || !ref_buckets_ok(a) || !ref_buckets_ok(b) {
+        return None;
+    }
+    if 3 + a.len() + 3 * b.len() + model_words(b) > MAX_INTS {
+        return None;
+    }
+    let ra = ref_build(a);
+    let rb = ref_build(b);
+    let r = with_ints(|out| {
+        if reduced.is_empty() {
+            let mut d = REF_DELTA_NONE.with(|c| c.borrow_mut().take()).unwrap_or_else(refsnap::Delta::new);
+            let r = d.create_raw_and_write_to_ints(&ra, &rb, ref_size_none, out).map(|x| x.to_vec());
+            REF_DELTA_NONE.with(|c| *c.borrow_mut() = Some(d));
+            r
+        } else {
+            REF_TABLE.with(|c| {
+                let mut c = c.borrow_mut();
+                *c = [0; REF_STATIC_TYPES as usize];
+                for (&t, &s) in reduced {
+                    c[t as usize] = s;
+                }
+            });
+            let mut d = refsnap::Delta::new();
+            d.create_raw_and_write_to_ints(&ra, &rb, ref_size_tls, out).map(|x| x.to_vec())
+        }
+    });
+    ref_release(ra);
+    ref_release(rb);
+    r.ok()
+}
+
+// ---------------------------------------------------------------------------
+// Core check for one pair
+
+#[derive(Default, Debug, Clone)]
+pub struct PairStats {
+    pub added: usize,
+    pub removed: usize,
+    pub changed: usize,
+    pub untouched: usize,
+    pub wrapping: bool,
+    pub high_types: bool,
+    pub explicit_sizes: bool,
+    pub preagreed_sizes: bool,
+    pub ref_snap: bool,
+    pub ref_delta: bool,
+    pub ref_delta_empty: bool,
+    pub ref_delta_warned: bool,
+    pub b_ints: usize,
+    pub b_items: usize,
+}
+
+pub fn pair_stats(a: &RawModel, b: &RawModel, table: &SizeTable) -> PairStats {
+    let mut s = PairStats::default();
+    for (k, to) in b {
+        match a.get(k) {
+            None => s.added += 1,
+            Some(from) if from == to => s.untouched += 1,
+            Some(from) => {
+                s.changed += 1;
+                if to.iter().zip(from).any(|(t, f)| t.checked_sub(*f).is_none()) {
+                    s.wrapping = true;
+                }
+            }
+        }
+    }
+    s.removed = a.keys().filter(|k| !b.contains_key(k)).count();
+    for &(t, _) in a.keys().chain(b.keys()) {
+        if t >= 0x8000 {
+            s.high_types = true;
+        }
+        if table.contains_key(&t) {
+            s.preagreed_sizes = true;
+        } else {
+            s.explicit_sizes = true;
+        }
+    }
+    s.b_items = b.len();
+    s.b_ints = 2 + 2 * b.len() + model_words(b);
+    s
+}
+
+/// Compare the outcome of applying a delta with the target.
+fn same_as_target<S: SnapLike>(
+    out: &S,
+    target: &S,
+    target_model: &RawModel,
+    verify: &dyn Fn(&S, bool, &str) -> Result<(), String>,
+    what: &str,
+) -> Result<(), String> {
+    let got = raw_view(out).map_err(|e| format!("{}: result does not serialize: {}", what, e))?;
+    if let Some(d) = first_diff(&got, target_model) {
+        return Err(format!("{}: result differs from B: {}", what, d));
+    }
+    ensure_eq!(out.checksum(), target.checksum(), "{}: crc of the result vs crc of B", what);
+    verify(out, true, what)
+}
+
+/// `verify(snapshot, is_b, what)` checks a snapshot against the A (false) or B (true) model through
+/// the flavour's public lookup API. `tables[0]` is the case's size table; every table in `tables`
+/// is used for the wire forms. `ref_table` selects the table (reduced to what the reference can
+/// express) for the differential part, None switches it off.
+pub fn check_delta_pair<S: SnapLike>(
+    a: &S,
+    b: &S,
+    am: &RawModel,
+    bm: &RawModel,
+    tables: &[&SizeTable],
+    verify: &dyn Fn(&S, bool, &str) -> Result<(), String>,
+    ref_table: Option<usize>,
+) -> Result<PairStats, String> {
+    let mut stats = pair_stats(am, bm, tables[0]);
+    // the inputs themselves
+    let a_ints = a.to_ints()?;
+    let b_ints = b.to_ints()?;
+    for (ints, m, s, name) in [(&a_ints, am, a, "A"), (&b_ints, bm, b, "B")] {
+        let got = to_raw_model(parse_snap_ints(ints)?).map_err(|e| format!("{}: {}", name, e))?;
+        if let Some(d) = first_diff(&got, m) {
+            return Err(format!("built snapshot {} differs from its items: {}", name, d));
+        }
+        ensure_eq!(s.checksum(), model_crc(m), "crc of built snapshot {} vs wrapping sum of its data words", name);
+    }
+    verify(a, false, "built A")?;
+    verify(b, true, "built B")?;
+
+    // (1) direct application, into a snapshot object that already holds something else
+    let mut delta = Delta::new();
+    S::create_delta(&mut delta, a, b);
+    {
+        let mut out = a.clone();
+        let mut w = Warnings::new();
+        let r = out.apply_delta(&mut w, a, &delta);
+        ensure!(r.is_ok(), "read_with_delta(A, create(A, B)) failed: {:?}", r);
+        ensure!(w.is_empty(), "read_with_delta(A, create(A, B)) warned {:?}", w.0);
+        same_as_target(&out, b, bm, verify, "direct application")?;
+        let mut out2 = S::default();
+        let r = out2.apply_delta(&mut w, a, &delta);
+        ensure!(r.is_ok() && w.is_empty(), "read_with_delta into an empty snapshot: {:?} {:?}", r, w.0);
+        same_as_target(&out2, b, bm, verify, "direct application into an empty snapshot")?;
+    }
+
+    // (2) wire forms
+    let mut rd = Delta::new();
+    for (ti, table) in tables.iter().enumerate() {
+        let ints = delta_to_ints(&delta, table)?;
+        let parsed = parse_delta_ints(&ints, table).map_err(|e| format!("delta wire form (table #{}): {}", ti, e))?;
+        check_parsed_delta(&parsed, am, bm).map_err(|e| format!("delta wire form (table #{}): {}", ti, e))?;
+        let bytes = delta_to_bytes(&delta, table)?;
+        eq_ints(&decode_bytes_to_ints(&bytes)?, &ints, "byte wire form of the delta, decoded, vs its integer wire form")?;
+        for form in 0..2 {
+            let mut w = Warnings::new();
+            let r = if form == 0 {
+                rd.read_from_ints(&mut w, |t| table.get(&t).copied(), &mut IntUnpacker::new(&ints))
+            } else {
+                rd.read(&mut w, |t| table.get(&t).copied(), &mut Unpacker::new(&bytes))
+            };
+            let name = if form == 0 { "integer wire form" } else { "byte wire form" };
+            ensure!(r.is_ok(), "reading the delta back from its {} (table #{}) failed: {:?}", name, ti, r);
+            ensure!(w.is_empty(), "reading the delta back from its {} warned {:?}", name, w.0);
+            let mut out = b.clone();
+            let r = out.apply_delta(&mut w, a, &rd);
+            ensure!(r.is_ok(), "applying the delta read from its {} failed: {:?}", name, r);
+            ensure!(w.is_empty(), "applying the delta read from its {} warned {:?}", name, w.0);
+            same_as_target(&out, b, bm, verify, name)?;
+        }
+    }
+
+    // (3) create(A, A) applied to A is A
+    {
+        let mut d = Delta::new();
+        S::create_delta(&mut d, a, a);
+        let ints = delta_to_ints(&d, tables[0])?;
+        let parsed = parse_delta_ints(&ints, tables[0]).map_err(|e| format!("create(A, A): {}", e))?;
+        ensure!(parsed.deleted.is_empty(), "create(A, A) removes {:?}", parsed.deleted);
+        check_parsed_delta(&parsed, am, am).map_err(|e| format!("create(A, A): {}", e))?;
+        let mut out = b.clone();
+        let mut w = Warnings::new();
+        let r = out.apply_delta(&mut w, a, &d);
+        ensure!(r.is_ok() && w.is_empty(), "applying create(A, A): {:?} {:?}", r, w.0);
+        let got = raw_view(&out)?;
+        if let Some(d) = first_diff(&got, am) {
+            return Err(format!("create(A, A) applied to A differs from A: {}", d));
+        }
+        ensure_eq!(out.checksum(), a.checksum(), "crc after applying create(A, A)");
+        verify(&out, false, "create(A, A) applied to A")?;
+    }
+
+    // (4) reference
+    if let Some(ri) = ref_table {
+        if ref_domain(am) && ref_domain(bm) {
+            stats.ref_snap = true;
+            eq_ints(&a_ints, &ref_snap_ints(am)?, "integer wire form of A vs the reference builder's")?;
+            eq_ints(&b_ints, &ref_snap_ints(bm)?, "integer wire form of B vs the reference builder's")?;
+            let reduced = ref_reduced_table(tables[ri]);
+            if let Some(rints) = ref_delta_ints(am, bm, &reduced) {
+                stats.ref_delta = true;
+                if rints.is_empty() {
+                    stats.ref_delta_empty = true;
+                    ensure!(am == bm, "harness: the reference reports 'no change' for differing snapshots");
+                } else {
+                    let mut w = Warnings::new();
+                    let r = rd.read_from_ints(&mut w, |t| reduced.get(&t).copied(), &mut IntUnpacker::new(&rints));
+                    ensure!(r.is_ok(), "Delta::read_from_ints refused the reference's delta: {:?} (delta {})", r, clip(&rints));
+                    let mut out = a.clone();
+                    let r = out.apply_delta(&mut w, a, &rd);
+                    ensure!(r.is_ok(), "applying the reference's delta failed: {:?} (delta {})", r, clip(&rints));
+                    stats.ref_delta_warned = !w.is_empty();
+                    same_as_target(&out, b, bm, verify, "reference delta")?;
+                }
+            }
+        }
+    }
+    Ok(stats)
+}
+
+// ---------------------------------------------------------------------------
+// Flavour: raw snapshots (any 16-bit type)
+
+pub fn build_raw(m: &RawModel, order: &[(u16, u16)]) -> Result<RawSnap, String> {
+    let mut b = RawBuilder::new();
+    let mut n = 0;
+    for k in order {
+        if let Some(d) = m.get(k) {
+            b.add_item(k.0, k.1, d).map_err(|e| {
+                format!("RawBuilder::add_item({:?}, {} words) refused with {:?} after {} items within the limits", k, d.len(), e, n)
+            })?;
+            n += 1;
+        }
+    }
+    ensure_eq!(n, m.len(), "harness: insertion order does not cover the model");
+    Ok(b.finish())
+}
+
+pub fn verify_raw(s: &RawSnap, m: &RawModel, absent: &[(u16, u16)], what: &str) -> Result<(), String> {
+    let it = s.items();
+    ensure_eq!(it.len(), m.len(), "{}: RawSnap::items().len()", what);
+    let mut got = RawModel::new();
+    for i in it {
+        burn();
+        ensure!(got.insert((i.raw_type_id, i.id), i.data.to_vec()).is_none(), "{}: items() yields ({},{}) twice", what, i.raw_type_id, i.id);
+    }
+    if let Some(d) = first_diff(&got, m) {
+        return Err(format!("{}: items() differs: {}", what, d));
+    }
+    for (&(t, id), d) in m {
+        let g = s.item(t, id);
+        if g != Some(&d[..]) {
+            return Err(format!("{}: item({}, {}) returned {:?}, expected {}", what, t, id, g.map(clip), clip(d)));
+        }
+    }
+    for &(t, id) in absent {
+        if !m.contains_key(&(t, id)) {
+            ensure!(s.item(t, id).is_none(), "{}: item({}, {}) found although the key is absent", what, t, id);
+        }
+    }
+    ensure_eq!(s.crc(), model_crc(m), "{}: crc vs wrapping sum of the data words", what);
+    Ok(())
+}
+
+pub fn check_raw_pair(
+    am: &RawModel,
+    bm: &RawModel,
+    order: &[(u16, u16)],
+    tables: &[&SizeTable],
+    ref_table: Option<usize>,
+) -> Result<PairStats, String> {
+    let a = build_raw(am, order)?;
+    let b = build_raw(bm, order)?;
+    let other_a: Vec<(u16, u16)> = bm.keys().filter(|k| !am.contains_key(k)).copied().collect();
+    let other_b: Vec<(u16, u16)> = am.keys().filter(|k| !bm.contains_key(k)).copied().collect();
+    let verify = |s: &RawSnap, is_b: bool, what: &str| {
+        if is_b {
+            verify_raw(s, bm, &other_b, what)
+        } else {
+            verify_raw(s, am, &other_a, what)
+        }
+    };
+    check_delta_pair(&a, &b, am, bm, tables, &verify, ref_table)
+}
+
+// ---------------------------------------------------------------------------
+// Exhaustive small universe
+
+pub const UNIVERSE: [(u16, u16); 7] = [(1, 0), (1, 1), (5, 0), (0x3fff, 7), (0x4001, 0), (0x8000, 0), (0xffff, 0xffff)];
+const VALS: [i32; 5] = [0, 1, -1, i32::MIN, i32::MAX];
+
+fn pow(b: u64, e: u32) -> u64 {
+    (0..e).fold(1, |p, _| p * b)
+}
+
+/// Number of states of one key with lengths 0..=max_len: absent in both, only in A, only in B, in both.
+fn n_states(max_len: u32) -> u64 {
+    1 + (0..=max_len).map(|l| 2 * pow(5, l) + pow(25, l)).sum::<u64>()
+}
+
+fn small_words(mut code: u64, len: u32) -> Vec<i32> {
+    (0..len)
+        .map(|_| {
+            let v = VALS[(code % 5) as usize];
+            code /= 5;
+            v
+        })
+        .collect()
+}
+
+fn decode_state(mut s: u64, max_len: u32) -> (Option<Vec<i32>>, Option<Vec<i32>>) {
+    if s == 0 {
+        return (None, None);
+    }
+    s -= 1;
+    for l in 0..=max_len {
+        let p = pow(5, l);
+        if s < p {
+            return (Some(small_words(s, l)), None);
+        }
+        s -= p;
+        if s < p {
+            return (None, Some(small_words(s, l)));
+        }
+        s -= p;
+        if s < p * p {
+            return (Some(small_words(s / p, l)), Some(small_words(s % p, l)));
+        }
+        s -= p * p;
+    }
+    unreachable!("state index out of range")
+}
+
+/// Largest table for a pair: every type whose items (in A and B) all have one length.
+fn max_table(a: &RawModel, b: &RawModel) -> SizeTable {
+    let mut lens: BTreeMap<u16, BTreeSet<usize>> = BTreeMap::new();
+    for (&(t, _), d) in a.iter().chain(b.iter()) {
+        lens.entry(t).or_default().insert(d.len());
+    }
+    lens.into_iter()
+        .filter(|(_, l)| l.len() == 1)
+        .map(|(t, l)| (t, *l.iter().next().unwrap() as u32))
+        .collect()
+}
+
+#[derive(Clone, Copy)]
+enum SmallKind {
+    One,
+    /// unordered pairs of keys, both with lengths 0..=len
+    Two { len: u32 },
+    /// ordered pairs of keys, lengths 0..=first for one and 0..=second for the other
+    TwoMixed { first: u32, second: u32 },
+    Three,
+}
+
+fn choose(n: usize, k: usize) -> Vec<Vec<usize>> {
+    fn rec(start: usize, n: usize, k: usize, cur: &mut Vec<usize>, out: &mut Vec<Vec<usize>>) {
+        if cur.len() == k {
+            out.push(cur.clone());
+            return;
+        }
+        for i in start..n {
+            cur.push(i);
+            rec(i + 1, n, k, cur, out);
+            cur.pop();
+        }
+    }
+    let mut out = Vec::new();
+    rec(0, n, k, &mut Vec::new(), &mut out);
+    out
+}
+
+fn small_total(kind: SmallKind) -> u64 {
+    match kind {
+        SmallKind::One => 7 * n_states(3),
+        SmallKind::Two { len } => 21 * n_states(len) * n_states(len),
+        SmallKind::TwoMixed { first, second } => 42 * n_states(first) * n_states(second),
+        SmallKind::Three => 35 * n_states(1) * n_states(1) * n_states(1),
+    }
+}
+
+fn small_models(kind: SmallKind, idx: u64) -> (RawModel, RawModel) {
+    let mut sel: Vec<(usize, u64, u32)> = Vec::new();
+    match kind {
+        SmallKind::One => {
+            let s = n_states(3);
+            sel.push(((idx / s) as usize, idx % s, 3));
+        }
+        SmallKind::Two { len } => {
+            let s = n_states(len);
+            let pairs = choose(7, 2);
+            let p = &pairs[(idx / (s * s)) as usize];
+            let r = idx % (s * s);
+            sel.push((p[0], r / s, len));
+            sel.push((p[1], r % s, len));
+        }
+        SmallKind::TwoMixed { first: l3, second: l1 } => {
+            let (s3, s1) = (n_states(l3), n_states(l1));
+            let p = idx / (s3 * s1);
+            let r = idx % (s3 * s1);
+            let first = (p / 6) as usize;
+            let mut second = (p % 6) as usize;
+            if second >= first {
+                second += 1;
+            }
+            sel.push((first, r / s1, l3));
+            sel.push((second, r % s1, l1));
+        }
+        SmallKind::Three => {
+            let s = n_states(1);
+            let triples = choose(7, 3);
+            let t = &triples[(idx / (s * s * s)) as usize];
+            let r = idx % (s * s * s);
+            sel.push((t[0], r / (s * s), 1));
+            sel.push((t[1], (r / s) % s, 1));
+            sel.push((t[2], r % s, 1));
+        }
+    }
+    let (mut a, mut b) = (RawModel::new(), RawModel::new());
+    for (k, s, l) in sel {
+        let (da, db) = decode_state(s, l);
+        if let Some(d) = da {
+            a.insert(UNIVERSE[k], d);
+        }
+        if let Some(d) = db {
+            b.insert(UNIVERSE[k], d);
+        }
+    }
+    (a, b)
+}
+
+fn render_model(m: &RawModel) -> Value {
+    Value::Array(m.iter().map(|(&(t, i), d)| json!([t, i, d])).collect())
+}
+
+fn check_small(kind: SmallKind, idx: u64, with_ref: bool) -> Result<bool, String> {
+    let (a, b) = small_models(kind, idx);
+    let table = max_table(&a, &b);
+    let empty = SizeTable::new();
+    // insertion order: descending key, the opposite of the wire order
+    let order: Vec<(u16, u16)> = a.keys().chain(b.keys()).copied().collect::<BTreeSet<_>>().into_iter().rev().collect();
+    let tables: Vec<&SizeTable> = if table.is_empty() { vec![&empty] } else { vec![&table, &empty] };
+    // differential part: the full table when asked for, else the empty table (cached reference object)
+    let ref_table = if with_ref { Some(0) } else { Some(tables.len() - 1) };
+    check_raw_pair(&a, &b, &order, &tables, ref_table)?;
+    Ok(a != b)
+}
+
+// ---------------------------------------------------------------------------
+// Generators shared with C10
+
+#[derive(Clone, Debug, Hash, Serialize, Deserialize, PartialEq, Eq)]
+pub enum DataSpec {
+    Words(Vec<i32>),
+    /// `len` words: start, start+step, start+2*step, .. (wrapping)
+    Ramp { len: u16, start: i32, step: i32 },
+}
+
+impl DataSpec {
+    pub fn len(&self) -> usize {
+        match self {
+            DataSpec::Words(w) => w.len(),
+            DataSpec::Ramp { len, .. } => *len as usize,
+        }
+    }
+    pub fn expand(&self) -> Vec<i32> {
+        match self {
+            DataSpec::Words(w) => w.clone(),
+            DataSpec::Ramp { len, start, step } => (0..*len as i32).map(|i| start.wrapping_add(step.wrapping_mul(i))).collect(),
+        }
+    }
+    /// The data fitted to `len` words by cutting or by repeating itself (zeros if empty).
+    pub fn expand_to(&self, len: usize) -> Vec<i32> {
+        let w = self.expand();
+        if w.is_empty() {
+            return vec![0; len];
+        }
+        (0..len).map(|i| w[i % w.len()]).collect()
+    }
+}
+
+pub fn word_strategy() -> BoxedStrategy<i32> {
+    prop_oneof![
+        5 => proptest::sample::select(vec![0, 1, -1, i32::MIN, i32::MAX]),
+        2 => any::<i32>(),
+        2 => -100i32..100,
+        1 => proptest::sample::select(vec![i32::MIN + 1, i32::MAX - 1, 0x4000_0000, -0x4000_0000, 2, -2]),
+    ]
+    .boxed()
+}
+
+/// kind 0: mostly tiny; 1: tiny (0..=2 words); 2: heavy (hundreds to thousands of words)
+pub fn data_strategy(kind: u8) -> BoxedStrategy<DataSpec> {
+    let words = |max: usize| proptest::collection::vec(word_strategy(), 0..=max).prop_map(DataSpec::Words);
+    let ramp = |lo: u16, hi: u16| {
+        (lo..=hi, word_strategy(), word_strategy()).prop_map(|(len, start, step)| DataSpec::Ramp { len, start, step })
+    };
+    match kind {
+        0 => prop_oneof![
+            8 => words(4),
+            3 => words(24),
+            1 => ramp(25, 300),
+        ]
+        .boxed(),
+        1 => words(2).boxed(),
+        _ => prop_oneof![
+            3 => ramp(100, 3000),
+            1 => ramp(3000, 16380),
+            1 => words(4),
+        ]
+        .boxed(),
+    }
+}
+
+pub fn id_strategy(wide: bool) -> BoxedStrategy<u16> {
+    if wide {
+        prop_oneof![
+            6 => any::<u16>(),
+            1 => proptest::sample::select(vec![0u16, 1, 0x7fff, 0x8000, 0xfffe, 0xffff]),
+        ]
+        .boxed()
+    } else {
+        prop_oneof![
+            5 => 0u16..6,
+            2 => 0u16..64,
+            2 => proptest::sample::select(vec![0xffffu16, 0xfffe, 0x8000, 0x7fff, 0x100, 0xff]),
+            1 => any::<u16>(),
+        ]
+        .boxed()
+    }
+}
+
+/// Type selector for the typed flavour: an ordinal 1..0x3fff or one of a pool of UUIDs.
+#[derive(Clone, Copy, Debug, Hash, Serialize, Deserialize, PartialEq, Eq, PartialOrd, Ord)]
+pub enum TypeSel {
+    Ord(u16),
+    Uuid(u8),
+}
+
+pub fn pool_uuid(i: u8) -> [u8; 16] {
+    match i {
+        0 => [0; 16],
+        1 => [0xff; 16],
+        2 => [0x80, 0, 0, 0, 0x80, 0, 0, 0, 0x80, 0, 0, 0, 0x80, 0, 0, 0],
+        3 => [0x7f, 0xff, 0xff, 0xff, 0x7f, 0xff, 0xff, 0xff, 0x7f, 0xff, 0xff, 0xff, 0x7f, 0xff, 0xff, 0xff],
+        _ => {
+            let mut x: u64 = 0x9E37_79B9_7F4A_7C15u64.wrapping_mul(i as u64 + 1);
+            let mut r = [0u8; 16];
+            for b in r.iter_mut() {
+                x ^= x << 13;
+                x ^= x >> 7;
+                x ^= x << 17;
+                *b = (x >> 24) as u8;
+            }
+            r
+        }
+    }
+}
+
+impl TypeSel {
+    pub fn type_id(self) -> TypeId {
+        match self {
+            TypeSel::Ord(o) => TypeId::Ordinal(o.clamp(1, 0x3fff)),
+            TypeSel::Uuid(i) => TypeId::Uuid(Uuid::from_bytes(pool_uuid(i))),
+        }
+    }
+}
+
+pub fn type_sel_strategy(many_uuids: bool) -> BoxedStrategy<TypeSel> {
+    let uuid_hi: u8 = if many_uuids { 40 } else { 6 };
+    prop_oneof![
+        4 => (1u16..24).prop_map(TypeSel::Ord),
+        1 => proptest::sample::select(vec![0x3fffu16, 0x3ffe, 0x2000, 63, 64]).prop_map(TypeSel::Ord),
+        1 => (1u16..0x4000).prop_map(TypeSel::Ord),
+        4 => (0u8..uuid_hi).prop_map(TypeSel::Uuid),
+    ]
+    .boxed()
+}
+
+pub fn is_uuid(t: &TypeId) -> bool {
+    matches!(t, TypeId::Uuid(_))
+}
+
+/// Checks a `Snap` against the typed model through `items()`, `item()` and `crc()`.
+/// `registered` = UUIDs the snapshot has registry items for (they count towards the checksum).
+/// `uuid_lookup` = false leaves `item(Uuid, ..)` out (known finding open).
+pub fn verify_typed(
+    s: &Snap,
+    m: &TypedModel,
+    registered: &BTreeSet<[u8; 16]>,
+    uuid_lookup: bool,
+    absent: &[(TypeId, u16)],
+    what: &str,
+) -> Result<(), String> {
+    let mut it = s.items();
+    ensure_eq!(it.len(), m.len(), "{}: Snap::items().len() before iterating", what);
+    let mut got = TypedModel::new();
+    let mut n = 0;
+    while let Some(i) = it.next() {
+        burn();
+        n += 1;
+        ensure!(n <= m.len(), "{}: items() yields more than the {} items of the model", what, m.len());
+        ensure_eq!(it.len(), m.len() - n, "{}: Snap::items().len() after {} items", what, n);
+        ensure!(got.insert((i.type_id, i.id), i.data.to_vec()).is_none(), "{}: items() yields ({:?},{}) twice", what, i.type_id, i.id);
+    }
+    if let Some(d) = first_diff(&got, m) {
+        return Err(format!("{}: items() differs: {}", what, d));
+    }
+    for (&(t, id), d) in m {
+        if is_uuid(&t) && !uuid_lookup {
+            continue;
+        }
+        let g = s.item(t, id);
+        if g != Some(&d[..]) {
+            return Err(format!("{}: item({:?}, {}) returned {:?}, expected {}", what, t, id, g.map(clip), clip(d)));
+        }
+    }
+    for &(t, id) in absent {
+        if m.contains_key(&(t, id)) || (is_uuid(&t) && !uuid_lookup) {
+            continue;
+        }
+        let g = s.item(t, id);
+        ensure!(g.is_none(), "{}: item({:?}, {}) returned {:?} although the key is absent", what, t, id, g.map(clip));
+    }
+    let mut crc = m.values().flatten().fold(0i32, |s, &w| s.wrapping_add(w));
+    for u in registered {
+        for w in uuid_words(u) {
+            crc = crc.wrapping_add(w);
+        }
+    }
+    ensure_eq!(s.crc(), crc, "{}: crc vs wrapping sum of all data words (incl. {} UUID registry items)", what, registered.len());
+    Ok(())
+}
+
+/// Interprets a parsed integer wire form through its UUID registry and compares it with the typed
+/// model. Returns the raw item set and the registry (uuid -> assigned type number).
+pub fn raw_view_of_typed(ints: &[i32], m: &TypedModel, what: &str) -> Result<(RawModel, BTreeMap<[u8; 16], u16>), String> {
+    let raw = to_raw_model(parse_snap_ints(ints).map_err(|e| format!("{}: {}", what, e))?).map_err(|e| format!("{}: {}", what, e))?;
+    let mut reg: BTreeMap<[u8; 16], u16> = BTreeMap::new();
+    let mut by_num: BTreeMap<u16, [u8; 16]> = BTreeMap::new();
+    for (&(t, id), d) in &raw {
+        if t == 0 {
+            ensure!(d.len() == 4, "{}: registry item (0,{}) has {} words", what, id, d.len());
+            ensure!((0x4000..0x8000).contains(&id), "{}: registry item assigns type number {:#x} outside 0x4000..0x8000", what, id);
+            let u = words_uuid(d);
+            ensure!(reg.insert(u, id).is_none(), "{}: UUID {} has two type numbers", what, Uuid::from_bytes(u));
+            by_num.insert(id, u);
+        }
+    }
+    let mut n = 0;
+    for (&(t, id), d) in &raw {
+        if t == 0 {
+            continue;
+        }
+        let ty = if t < 0x4000 {
+            TypeId::Ordinal(t)
+        } else {
+            match by_num.get(&t) {
+                Some(u) => TypeId::Uuid(Uuid::from_bytes(*u)),
+                None => return Err(format!("{}: item ({:#x},{}) has no registry item for its type number", what, t, id)),
+            }
+        };
+        match m.get(&(ty, id)) {
+            Some(want) if want == d => {}
+            Some(want) => return Err(format!("{}: wire item ({:?},{}) has data {}, expected {}", what, ty, id, clip(d), clip(want))),
+            None => return Err(format!("{}: wire form contains ({:?},{}) which was never added", what, ty, id)),
+        }
+        n += 1;
+    }
+    ensure_eq!(n, m.len(), "{}: number of non-registry items on the wire vs items added", what);
+    for (t, _) in m.keys() {
+        if let TypeId::Uuid(u) = t {
+            ensure!(reg.contains_key(u.as_bytes()), "{}: UUID {} used but not in the registry", what, u);
+        }
+    }
+    Ok((raw, reg))
+}
+
+// ---------------------------------------------------------------------------
+// Random pairs
+
+#[derive(Clone, Copy, Debug, Hash, Serialize, Deserialize, PartialEq, Eq)]
+pub enum Presence {
+    OnlyA,
+    OnlyB,
+    Same,
+    Changed,
+}
+
+#[derive(Clone, Debug, Hash, Serialize, Deserialize)]
+pub struct PairItem<T> {
+    pub ty: T,
+    pub id: u16,
+    pub presence: Presence,
+    /// the first item of a type decides whether the type's size (this item's) is pre-agreed
+    pub preagreed: bool,
+    /// data in A (and in B when unchanged); its length is the size of the key on both sides
+    pub a: DataSpec,
+    /// data in B when changed / only in B (fitted to the key's size)
+    pub b: DataSpec,
+}
+
+#[derive(Clone, Debug, Hash, Serialize, Deserialize)]
+pub struct RawPairCase {
+    pub items: Vec<PairItem<u16>>,
+    /// add one more explicit-size item that fills A / B to exactly 64 KiB
+    pub fill_a: bool,
+    pub fill_b: bool,
+}
+
+#[derive(Clone, Debug, Hash, Serialize, Deserialize)]
+pub struct TypedPairCase {
+    pub items: Vec<PairItem<TypeSel>>,
+    /// B is built by `A.clone().recycle()` (stable UUID type numbers) instead of a fresh builder
+    pub recycle: bool,
+}
+
+fn presence_strategy(dense: bool) -> BoxedStrategy<Presence> {
+    if dense {
+        prop_oneof![
+            1 => Just(Presence::OnlyA),
+            1 => Just(Presence::OnlyB),
+            5 => Just(Presence::Same),
+            3 => Just(Presence::Changed),
+        ]
+        .boxed()
+    } else {
+        prop_oneof![
+            2 => Just(Presence::OnlyA),
+            2 => Just(Presence::OnlyB),
+            2 => Just(Presence::Same),
+            3 => Just(Presence::Changed),
+        ]
+        .boxed()
+    }
+}
+
+fn raw_type_strategy(high: bool) -> BoxedStrategy<u16> {
+    if high {
+        prop_oneof![
+            3 => 1u16..24,
+            1 => 0u16..64,
+            2 => proptest::sample::select(vec![0x3fffu16, 0x4000, 0x4001, 0x7ffe, 0x7fff]),
+            3 => proptest::sample::select(vec![0x8000u16, 0x8001, 0xc000, 0xfffe, 0xffff]),
+            1 => 0x8000u16..=0xffff,
+            1 => any::<u16>(),
+        ]
+        .boxed()
+    } else {
+        prop_oneof![
+            5 => 1u16..24,
+            2 => 0u16..64,
+            2 => proptest::sample::select(vec![0x3fffu16, 0x4000, 0x4001, 0x7ffe, 0x7fff]),
+            1 => 0u16..=0x7fff,
+        ]
+        .boxed()
+    }
+}
+
+fn pair_item_strategy<T: std::fmt::Debug + Clone + 'static>(
+    ty: BoxedStrategy<T>,
+    data_kind: u8,
+    wide_ids: bool,
+    dense: bool,
+) -> BoxedStrategy<PairItem<T>> {
+    (
+        ty,
+        id_strategy(wide_ids),
+        presence_strategy(dense),
+        proptest::bool::weighted(0.5),
+        data_strategy(data_kind),
+        data_strategy(if data_kind == 2 { 0 } else { data_kind }),
+    )
+        .prop_map(|(ty, id, presence, preagreed, a, b)| PairItem { ty, id, presence, preagreed, a, b })
+        .boxed()
+}
+
+fn pair_items_strategy<T: std::fmt::Debug + Clone + 'static>(ty: BoxedStrategy<T>) -> BoxedStrategy<Vec<PairItem<T>>> {
+    prop_oneof![
+        6 => proptest::collection::vec(pair_item_strategy(ty.clone(), 0, false, false), 0..14),
+        3 => proptest::collection::vec(pair_item_strategy(ty.clone(), 0, false, false), 10..80),
+        1 => proptest::collection::vec(pair_item_strategy(ty.clone(), 1, true, true), 1100..1300),
+        1 => proptest::collection::vec(pair_item_strategy(ty, 2, false, true), 4..40),
+    ]
+    .boxed()
+}
+
+pub fn raw_pair_strategy() -> impl Strategy<Value = RawPairCase> {
+    (
+        prop_oneof![
+            3 => pair_items_strategy(raw_type_strategy(false)),
+            2 => pair_items_strategy(raw_type_strategy(true)),
+        ],
+        proptest::bool::weighted(0.15),
+        proptest::bool::weighted(0.15),
+    )
+        .prop_map(|(items, fill_a, fill_b)| RawPairCase { items, fill_a, fill_b })
+}
+
+pub fn typed_pair_strategy() -> impl Strategy<Value = TypedPairCase> {
+    (
+        prop_oneof![
+            3 => pair_items_strategy(type_sel_strategy(false)),
+            1 => pair_items_strategy(type_sel_strategy(true)),
+        ],
+        any::<bool>(),
+    )
+        .prop_map(|(items, recycle)| TypedPairCase { items, recycle })
+}
+
+pub struct RawPair {
+    pub a: RawModel,
+    pub b: RawModel,
+    pub order: Vec<(u16, u16)>,
+    pub table: SizeTable,
+    pub filled_a: bool,
+    pub filled_b: bool,
+}
+
+fn fill_item(m: &mut RawModel, other: &RawModel, table: &SizeTable, order: &mut Vec<(u16, u16)>) -> bool {
+    let (n, w) = (m.len(), model_words(m));
+    if n >= MAX_ITEMS || 2 + 2 * (n + 1) + w > MAX_INTS {
+        return false;
+    }
+    let len = MAX_INTS - (2 + 2 * (n + 1) + w);
+    // an unused key of an explicit-size type below 0x8000
+    let mut t = 0x7ffeu16;
+    while table.contains_key(&t) || m.contains_key(&(t, 0xfffe)) || other.contains_key(&(t, 0xfffe)) {
+        t -= 1;
+    }
+    let data: Vec<i32> = (0..len as i32).map(|i| i.wrapping_mul(0x0101_0101) ^ 0x5a5a).collect();
+    m.insert((t, 0xfffe), data);
+    order.push((t, 0xfffe));
+    true
+}
+
+pub fn normalize_raw(c: &RawPairCase) -> RawPair {
+    let mut p = RawPair {
+        a: RawModel::new(),
+        b: RawModel::new(),
+        order: Vec::new(),
+        table: SizeTable::new(),
+        filled_a: false,
+        filled_b: false,
+    };
+    let mut decided: BTreeMap<u16, Option<u32>> = BTreeMap::new();
+    let mut seen: BTreeSet<(u16, u16)> = BTreeSet::new();
+    let (mut wa, mut wb) = (0usize, 0usize);
+    for it in &c.items {
+        let key = (it.ty, it.id);
+        if !seen.insert(key) {
+            continue;
+        }
+        let own = it.a.len();
+        let len = match *decided.entry(it.ty).or_insert(if it.preagreed { Some(own as u32) } else { None }) {
+            Some(s) => s as usize,
+            None => own,
+        };
+        let da = it.a.expand_to(len);
+        let db = match it.presence {
+            Presence::Same => da.clone(),
+            _ => it.b.expand_to(len),
+        };
+        let mut used = false;
+        if it.presence != Presence::OnlyB && fits(p.a.len(), wa, len) {
+            wa += len;
+            p.a.insert(key, da);
+            used = true;
+        }
+        if it.presence != Presence::OnlyA && fits(p.b.len(), wb, len) {
+            wb += len;
+            p.b.insert(key, db);
+            used = true;
+        }
+        if used {
+            p.order.push(key);
+        }
+    }
+    p.table = decided.into_iter().filter_map(|(t, s)| s.map(|s| (t, s))).collect();
+    if c.fill_a {
+        let other = p.b.clone();
+        p.filled_a = fill_item(&mut p.a, &other, &p.table, &mut p.order);
+    }
+    if c.fill_b {
+        let other = p.a.clone();
+        p.filled_b = fill_item(&mut p.b, &other, &p.table, &mut p.order);
+    }
+    p
+}
+
+fn outcome_of(stats: &PairStats, extra: &[(&'static str, bool)]) -> Outcome {
+    let mut o = Outcome::nt(stats.added >= 1 && stats.removed >= 1 && stats.changed >= 1 && stats.untouched >= 1)
+        .class_if(stats.explicit_sizes, "explicit_sizes")
+        .class_if(stats.preagreed_sizes, "preagreed_sizes")
+        .class_if(stats.high_types, "types_ge_0x8000")
+        .class_if(stats.wrapping, "wrapping_difference")
+        .class_if(stats.b_ints >= 1024, "multi_KiB")
+        .class_if(stats.b_items == MAX_ITEMS, "B_has_1024_items")
+        .class_if(stats.b_ints == MAX_INTS, "B_is_exactly_64KiB")
+        .class_if(stats.added > 0, "has_added")
+        .class_if(stats.removed > 0, "has_removed")
+        .class_if(stats.changed > 0, "has_changed")
+        .class_if(stats.untouched > 0, "has_untouched")
+        .class_if(stats.added + stats.removed + stats.changed == 0, "A_equals_B")
+        .class_if(stats.ref_snap, "ref_snapshot_compared")
+        .class_if(stats.ref_delta && !stats.ref_delta_empty, "ref_delta_applied")
+        .class_if(stats.ref_delta_empty, "ref_delta_empty")
+        .class_if(stats.ref_snap && !stats.ref_delta, "ref_delta_skipped_capacity_or_buckets")
+        .class_if(stats.ref_delta_warned, "ref_delta_warned");
+    for (c, cond) in extra {
+        o = o.class_if(*cond, *c);
+    }
+    o
+}
+
+fn check_raw_case(c: &RawPairCase) -> PResult {
+    let p = normalize_raw(c);
+    let empty = SizeTable::new();
+    let tables: Vec<&SizeTable> = if p.table.is_empty() { vec![&empty] } else { vec![&p.table, &empty] };
+    let stats = check_raw_pair(&p.a, &p.b, &p.order, &tables, Some(0))?;
+    Ok(outcome_of(&stats, &[("A_filled_to_64KiB", p.filled_a), ("B_filled_to_64KiB", p.filled_b)]))
+}
+
+// ---- typed flavour (Builder / Snap with UUID types)
+
+pub struct TypedSide {
+    pub model: TypedModel,
+    pub order: Vec<(TypeId, u16)>,
+    pub registered: BTreeSet<[u8; 16]>,
+}
+
+pub struct TypedPair {
+    pub a: TypedSide,
+    pub b: TypedSide,
+    pub table: SizeTable,
+}
+
+struct Budget {
+    n: usize,
+    w: usize,
+}
+
+impl Budget {
+    /// Reserve room for an item (and its type's registry item if the UUID is new).
+    fn take(&mut self, new_uuid: bool, len: usize) -> bool {
+        let (mut n, mut w) = (self.n, self.w);
+        if new_uuid {
+            if !fits(n, w, 4) {
+                return false;
+            }
+            n += 1;
+            w += 4;
+        }
+        if !fits(n, w, len) {
+            return false;
+        }
+        self.n = n + 1;
+        self.w = w + len;
+        true
+    }
+}
+
+pub fn normalize_typed(c: &TypedPairCase) -> TypedPair {
+    let mut decided: BTreeMap<u16, Option<u32>> = BTreeMap::new();
+    let mut seen: BTreeSet<(TypeId, u16)> = BTreeSet::new();
+    let mut rows: Vec<((TypeId, u16), Presence, Vec<i32>, Vec<i32>)> = Vec::new();
+    for it in &c.items {
+        let ty = it.ty.type_id();
+        let key = (ty, it.id);
+        if !seen.insert(key) {
+            continue;
+        }
+        let own = it.a.len();
+        let len = match ty {
+            TypeId::Ordinal(o) => match *decided.entry(o).or_insert(if it.preagreed { Some(own as u32) } else { None }) {
+                Some(s) => s as usize,
+                None => own,
+            },
+            TypeId::Uuid(_) => own,
+        };
+        let da = it.a.expand_to(len);
+        let db = if it.presence == Presence::Same { da.clone() } else { it.b.expand_to(len) };
+        rows.push((key, it.presence, da, db));
+    }
+    let side = |is_b: bool, start: &BTreeSet<[u8; 16]>| -> TypedSide {
+        let mut s = TypedSide { model: TypedModel::new(), order: Vec::new(), registered: start.clone() };
+        let mut budget = Budget { n: start.len(), w: 4 * start.len() };
+        for (key, presence, da, db) in &rows {
+            let present = if is_b { *presence != Presence::OnlyA } else { *presence != Presence::OnlyB };
+            if !present {
+                continue;
+            }
+            let d = if is_b { db } else { da };
+            let new_uuid = match key.0 {
+                TypeId::Uuid(u) => !s.registered.contains(u.as_bytes()),
+                _ => false,
+            };
+            if !budget.take(new_uuid, d.len()) {
+                continue;
+            }
+            if let TypeId::Uuid(u) = key.0 {
+                s.registered.insert(*u.as_bytes());
+            }
+            s.model.insert(*key, d.clone());
+            s.order.push(*key);
+        }
+        s
+    };
+    let a = side(false, &BTreeSet::new());
+    let b = side(true, &if c.recycle { a.registered.clone() } else { BTreeSet::new() });
+    TypedPair {
+        a,
+        b,
+        table: decided.into_iter().filter_map(|(t, s)| s.map(|s| (t, s))).collect(),
+    }
+}
+
+pub fn build_typed(mut b: Builder, side: &TypedSide) -> Result<Snap, String> {
+    for (n, k) in side.order.iter().enumerate() {
+        let d = &side.model[k];
+        b.add_item(k.0, k.1, d).map_err(|e| {
+            format!("Builder::add_item({:?}, {}, {} words) refused with {:?} after {} items within the limits", k.0, k.1, d.len(), e, n)
+        })?;
+    }
+    Ok(b.finish())
+}
+
+fn check_typed_case(c: &TypedPairCase, uuid_bug_open: bool, excluded: &AtomicU64) -> PResult {
+    let p = normalize_typed(c);
+    let a = build_typed(Builder::new(), &p.a)?;
+    let b = build_typed(if c.recycle { a.clone().recycle() } else { Builder::new() }, &p.b)?;
+    let (am, areg) = raw_view_of_typed(&a.to_ints()?, &p.a.model, "built A")?;
+    let (bm, breg) = raw_view_of_typed(&b.to_ints()?, &p.b.model, "built B")?;
+    let n_uuid_types = breg.len();
+    let uuid_items = p.b.model.keys().filter(|k| is_uuid(&k.0)).count();
+    if c.recycle {
+        for (u, n) in &areg {
+            ensure_eq!(breg.get(u), Some(n), "type number of UUID {} after recycle()", Uuid::from_bytes(*u));
+        }
+    }
+    // Sender-side contract: one size per raw key. Fresh builders number UUID types by first use, so
+    // different UUIDs can share a number in A and B; such pairs with differing sizes are not
+    // something a sender can produce a delta for (`Delta::create` documents that) - skipped.
+    let conflict = am.iter().any(|(k, d)| bm.get(k).map(|e| e.len() != d.len()).unwrap_or(false));
+    if conflict {
+        return Ok(Outcome::trivial().class("skipped_raw_key_size_conflict"));
+    }
+    let empty = SizeTable::new();
+    let tables: Vec<&SizeTable> = if p.table.is_empty() { vec![&empty] } else { vec![&p.table, &empty] };
+    let absent_a: Vec<(TypeId, u16)> = p.b.model.keys().filter(|k| !p.a.model.contains_key(k)).copied().collect();
+    let absent_b: Vec<(TypeId, u16)> = p.a.model.keys().filter(|k| !p.b.model.contains_key(k)).copied().collect();
+    let areg_set: BTreeSet<[u8; 16]> = areg.keys().copied().collect();
+    let breg_set: BTreeSet<[u8; 16]> = breg.keys().copied().collect();
+    ensure_eq!(areg_set, p.a.registered, "UUIDs in A's registry vs UUIDs used");
+    ensure_eq!(breg_set, p.b.registered, "UUIDs in B's registry vs UUIDs used (plus recycled)");
+    let verify = |s: &Snap, is_b: bool, what: &str| {
+        // snapshots handed in as "built" come from the builder, everything else went through
+        // read_with_delta and so through the registry rebuild
+        let built = what.starts_with("built");
+        let lookup = built || !uuid_bug_open;
+        if is_b {
+            verify_typed(s, &p.b.model, &breg_set, lookup, &absent_b, what)
+        } else {
+            verify_typed(s, &p.a.model, &areg_set, lookup, &absent_a, what)
+        }
+    };
+    let stats = check_delta_pair(&a, &b, &am, &bm, &tables, &verify, Some(0))?;
+    if uuid_bug_open && uuid_items > 0 {
+        excluded.fetch_add(1, Ordering::Relaxed);
+    }
+    let registry_changed = areg.iter().any(|(u, n)| breg.get(u) != Some(n)) || areg.len() != breg.len();
+    Ok(outcome_of(
+        &stats,
+        &[
+            ("recycled_builder", c.recycle),
+            ("uuid_types_0", n_uuid_types == 0),
+            ("uuid_types_1", n_uuid_types == 1),
+            ("uuid_types_2_5", (2..=5).contains(&n_uuid_types)),
+            ("uuid_types_gt5", n_uuid_types > 5),
+            ("uuid_items_in_B", uuid_items > 0),
+            ("registry_differs_A_B", registry_changed),
+        ],
+    ))
+}
+
+// ---------------------------------------------------------------------------
+
+/// Minimal input for the UUID-registry defect as seen through a delta application.
+fn probe_uuid_lookup_after_delta() -> Result<(), String> {
+    let c = TypedPairCase {
+        items: vec![PairItem {
+            ty: TypeSel::Uuid(4),
+            id: 1,
+            presence: Presence::OnlyB,
+            preagreed: false,
+            a: DataSpec::Words(vec![7]),
+            b: DataSpec::Words(vec![7]),
+        }],
+        recycle: false,
+    };
+    check_typed_case(&c, false, &AtomicU64::new(0)).map(|_| ())
+}
+
+pub fn run(ctx: &Ctx) {
+    ctx.set_rule(
+        "small_*: every pair (A,B) over 1/2/3 keys of a 7-key universe x absent/only-A/only-B/both x lengths 0..3 (one key), \
+         0..2 x 0..1 (two keys; thorough also 0..2 x 0..2 and 0..3 x 0..1), 0..1 (three keys, thorough) x words {0,1,-1,MIN,MAX}, \
+         complete enumeration (non-trivial = A != B); random_raw / \
+         random_typed: proptest pairs of item sets (RawBuilder with any 16-bit type / Builder with ordinal and UUID types, \
+         fresh or recycled), one size per key, a generated subset of types with pre-agreed sizes, up to 1024 items and \
+         exactly 64 KiB (non-trivial = at least one added, one removed, one changed and one untouched item; distinct by case hash)",
+    );
+    ctx.assume("the wire-format oracle is an independent reader written from doc/snapshot.md; byte wire forms are decoded with libtw2_packer::Unpacker (property C08)");
+    ctx.assume(
+        "reference differential only inside the domain where the C++ does not abort or overflow: types <= 0x7fff, static sizes only \
+         for types < 64 and != 0, delta bound <= 16384 words, <= 64 keys per hash bucket; an empty reference delta means 'no change'; \
+         warnings while applying a reference delta are not demanded to be absent",
+    );
+    ctx.assume("snapshot pairs respect the sender-side contract of Delta::create: the same raw key has the same size in A and B");
+
+    let uuid_bug_open = ctx.known_open(KEY_UUID_REGISTRY);
+    ctx.probe(KEY_UUID_REGISTRY, probe_uuid_lookup_after_delta);
+
+    let render = |kind: SmallKind| {
+        move |i: u64| {
+            let (a, b) = small_models(kind, i);
+            json!({"A": render_model(&a), "B": render_model(&b)})
+        }
+    };
+    let one = SmallKind::One;
+    ctx.exhaustive("small_1key", small_total(one), |i| check_small(one, i, true), render(one));
+    let two = SmallKind::TwoMixed { first: 2, second: 1 };
+    ctx.exhaustive("small_2keys", small_total(two), |i| check_small(two, i, false), render(two));
+    if !ctx.quick() {
+        let three = SmallKind::Three;
+        ctx.exhaustive("small_3keys", small_total(three), |i| check_small(three, i, false), render(three));
+        let two2 = SmallKind::Two { len: 2 };
+        ctx.exhaustive("small_2keys_len2", small_total(two2), |i| check_small(two2, i, false), render(two2));
+        let long = SmallKind::TwoMixed { first: 3, second: 1 };
+        ctx.exhaustive("small_2keys_len3", small_total(long), |i| check_small(long, i, false), render(long));
+    }
+    ctx.prop("random_raw", ctx.n(6_000, 120_000), raw_pair_strategy, check_raw_case);
+    if uuid_bug_open {
+        ctx.note(format!(
+            "known finding {} open: item(Uuid, ..) lookups on snapshots produced by read_with_delta are left out",
+            KEY_UUID_REGISTRY
+        ));
+    }
+    let excluded = AtomicU64::new(0);
+    ctx.prop("random_typed", ctx.n(4_000, 80_000), typed_pair_strategy, |c: &TypedPairCase| {
+        check_typed_case(c, uuid_bug_open, &excluded)
+    });
+    ctx.add_excluded_known(excluded.load(Ordering::Relaxed));
 }
